@@ -149,7 +149,7 @@ fn run_case(bytes: &[u8], syms: &Option<Vec<u8>>, opt: u64, l: &mut Local, detai
 const SYM_CFI: &str = "MODULE Linux x86_64 000000000000000000000000000000000 m\nFILE 0 a.c\nFUNC 0 100000 0 everything\n0 100000 1 0\nSTACK CFI INIT 0 100000 .cfa: $rsp 16 + .ra: .cfa -8 + ^ $rbp: .cfa -16 + ^\nSTACK CFI INIT 0 100000 .cfa: sp 16 + .ra: .cfa -8 + ^ x29: .cfa -16 + ^\n";
 const SYM_WIN: &str = "MODULE windows x86 000000000000000000000000000000000 m\nFUNC 0 100000 8 everything\nSTACK WIN 4 0 100000 1 0 8 4 10 0 1 $T0 $ebp = $eip $T0 4 + ^ = $ebp $T0 ^ = $esp $T0 8 + =\n";
 const SYM_MEMFREE: &str = "MODULE Linux x86_64 000000000000000000000000000000000 m\nSTACK CFI INIT 0 ffffffff .cfa: $rsp 1 + .ra: 4096\nSTACK CFI INIT 0 ffffffff .cfa: $esp 1 + .ra: 4096\nSTACK CFI INIT 0 ffffffff .cfa: sp 1 + .ra: 4096\n";
-const SYM_OVERLAP: &str = "MODULE Linux x86_64 000000000000000000000000000000000 m\nFUNC 1000 11 0 first\nFUNC 1010 10 0 second\nFUNC 1010 10 0 second\nFUNC 1800 100 0 outer\nFUNC 1810 10 0 inner\nFUNC 2000 10 0 a\n2000 9 1 0\n2008 8 2 0\nFUNC 2010 10 0 b\nPUBLIC 1000 0 p\nSTACK CFI INIT 1000 11 .cfa: $rsp 8 + .ra: .cfa -8 + ^\nSTACK CFI INIT 1010 10 .cfa: $rsp 16 + .ra: .cfa -8 + ^\nSTACK WIN 4 1000 11 0 0 0 0 0 0 1 $eip .raSearch ^ = $esp .raSearch 4 + =\nSTACK WIN 4 1010 10 0 0 0 0 0 0 1 $eip .raSearch ^ = $esp .raSearch 4 + =\nSTACK WIN 0 1000 11 0 0 0 0 0 0 0 0\nSTACK WIN 0 1010 10 0 0 0 0 0 0 0 0\n";
+const SYM_OVERLAP: &str = "MODULE Linux x86_64 000000000000000000000000000000000 m\nFUNC 1000 11 0 first\nFUNC 1010 10 0 second\nFUNC 1010 10 0 second\nFUNC 1800 100 0 outer\nFUNC 1810 10 0 inner\nFUNC 2000 10 0 a\n2000 9 1 0\n2008 8 2 0\nFUNC 2010 10 0 b\nPUBLIC 1000 0 p\nSTACK CFI INIT 1000 11 .cfa: $rsp 8 + .ra: .cfa -8 + ^\nSTACK CFI INIT 1010 10 .cfa: $rsp 16 + .ra: .cfa -8 + ^\nSTACK WIN 4 1000 11 0 0 0 0 0 0 1 $eip .raSearch ^ = $esp .raSearch 4 + =\nSTACK WIN 4 1010 10 0 0 0 0 0 0 1 $eip .raSearch ^ = $esp .raSearch 4 + =\nSTACK WIN 0 1000 11 0 0 0 0 0 0 0 0\nSTACK WIN 0 1010 10 0 0 0 0 0 0 0 0\nFUNC 6000 0 0 empty\nFUNC 6100 10 0 emptyline\n6100 0 1 0\nSTACK CFI INIT 5000 0 .cfa: $rsp 8 + .ra: .cfa -8 + ^\nSTACK CFI INIT 0 0 .cfa: $rsp 8 + .ra: .cfa -8 + ^\nSTACK WIN 4 7000 0 0 0 0 0 0 0 1 $eip .raSearch ^ =\nSTACK WIN 0 7100 0 0 0 0 0 0 0 0 0\n";
 const SYM_PINGPONG: &str = "MODULE Linux x86_64 000000000000000000000000000000000 m\nSTACK CFI INIT 0 2000 .cfa: $rsp .ra: 12288\nSTACK CFI INIT 2000 fffffff .cfa: $rsp .ra: 4096\nSTACK CFI INIT 0 2000 .cfa: $esp .ra: 12288\nSTACK CFI INIT 2000 fffffff .cfa: $esp .ra: 4096\nSTACK CFI INIT 0 2000 .cfa: sp .ra: 12288\nSTACK CFI INIT 2000 fffffff .cfa: sp .ra: 4096\n";
 const SYM_ARGS: &str = "MODULE windows x86 000000000000000000000000000000000 m\nFUNC 0 800 c zeichne(\u{e9},int h)\nFUNC 800 800 10 f(std::map<a,b>,\u{1F600} x,(*)(int,\u{fc}),\u{e9})\nFUNC 1000 ff000 8 g(\u{e9}\u{e9}\u{e9}\u{e9},\u{20ac})\nSTACK WIN 4 0 100000 1 0 c 4 10 0 1 $T0 $ebp = $eip $T0 4 + ^ = $ebp $T0 ^ = $esp $T0 8 + =\n";
 fn sym_menu() -> Vec<(&'static str, Option<Vec<u8>>)> {
@@ -160,7 +160,8 @@ fn sym_menu() -> Vec<(&'static str, Option<Vec<u8>>)> {
         ("stack-win", Some(SYM_WIN.as_bytes().to_vec())),
         ("memory-free-cfi", Some(SYM_MEMFREE.as_bytes().to_vec())),
         ("corrupt", Some(SYM_CFI.replace("FUNC 0", "FUNC zz").into_bytes())),
-        // records that overlap by exactly one byte, touch, nest and repeat (the parser's repair rules)
+        // records that overlap by exactly one byte, touch, nest and repeat (the parser's repair rules), and records
+        // of size 0 of every kind
         ("overlapping-records", Some(SYM_OVERLAP.as_bytes().to_vec())),
         // function names with argument lists containing multi-byte characters, templates and nested parentheses
         // (x86 argument recovery under unstable_all slices the name at comma positions)
